@@ -2,4 +2,4 @@
 From Coq Require Import ExtrOcamlBasic ExtrOcamlString.
 From CC Require Import Src.CSem.
 Extraction Language OCaml.
-Extraction "../build/ocaml/csem_model.ml" run_main mkP mkF mkV sset sget norm.
+Extraction "../build/ocaml/csem_model.ml" run_main mkP mkF mkV sset sget norm poisoned.
